@@ -91,9 +91,26 @@ def handmade():
         [B, tx("xfer"), tx("xfer", "dup"), tx("xfer", "gap"), tx("stakelow"), tx("xferself"), tx("name3"), E, B, tx("xfer"), tx("xfer", "replay"), tx("forged3"), tx("setownself"), E, B, tx("setownoth"), E],
         [B, tx("vault"), tx("stake"), tx("stake3"), tx("setownoth"), E, B, tx("vote1"), tx("vote3"), tx("vote1"), tx("name"), E, B, tx("setownself"), E, B, tx("deploy"), tx("callfail"), tx("callok"), tx("callok", "replay"), E, B, tx("callfail3"), tx("callfail", "gap"), E],
     ]
+    # name senders (the name n1 as the sender ACCOUNT of a transaction).  Block 1: u2 registers the name (using it in the
+    # same block is too early); 2: the owner uses it (plain, duplicate/gap nonce, a failing call, bound to another chain,
+    # with another account's nonce), strangers sign for it; 3: the name is handed over to u1 and, in the SAME block, the
+    # previous owner u2 (still the owner in the state the block starts from), the new holder u1 and a stranger u3 sign for
+    # it, with the nonce of either party; 4 (the handover is committed): the same transactions again - now u1 is the owner
+    # and u2 the previous owner; 5: u1 hands it back and uses it in the same block; 6: the name itself (signed by its owner
+    # u2) sends the v1updateName that gives it to u3, then u2 tries to hand it to u1 as well (that transaction stays in the
+    # pool and takes effect once u2 owns the name again); 7, 8, 9: u3 owns it, hands it to u2, the pending handover to u1.
+    names = [B, tx("name"), tx("deploy"), tx("nxfer2"), E,
+             B, tx("nxfer2"), tx("nxfer2", "dup"), tx("nxfer2", "gap"), tx("ncall2"), tx("nxferfor"), tx("nxfer1"), tx("nxfer3"), tx("nxfer2as1"), tx("nxfer1as2"), tx("nxfer2", "replay"), E,
+             B, tx("xfer"), tx("nameupd"), tx("nxfer2"), tx("nxfer1"), tx("nxfer3"), tx("nxfer2as1"), tx("nxfer1as2"), tx("nxfer3as2"), tx("ncall2"), E,
+             B, tx("nxfer2"), tx("nxfer1"), tx("nxfer2as1"), tx("nxfer1as2"), tx("nxfer3as2"), tx("nameupd"), tx("nameupdbk", "gap"), tx("nxfer1", "dup"), tx("nxfer2", "replay"), E,
+             B, tx("nxfer1"), tx("nameupdbk"), tx("nxfer1"), tx("nxfer2"), tx("nxfer3"), E,
+             B, tx("nxfer2"), tx("nameupdn"), tx("nxfer2"), tx("nxfer3"), tx("nameupd"), E,
+             B, tx("nxfer3"), tx("nxfer2"), tx("nxfer3as2"), tx("nameupd3"), tx("nxfer3"), tx("nxfer3", "replay"), E,
+             B, tx("nxfer2"), tx("nxfer3"), tx("nxfer2as1"), tx("nxfer1"), E,
+             B, tx("nxfer1"), tx("nxfer2"), tx("nxfer3"), tx("nxfer1as2"), tx("nxfer2as1"), E]
     # the harness runs behaviour i under regime i mod len(REGIMES): the first scenario (every transaction kind, failures,
-    # replays, system failures) goes first, once per regime
-    return [h[0]] * len(REGIMES) + h[1:]
+    # replays, system failures) goes first, once per regime; then the name-sender scenario, once per regime
+    return [h[0]] * len(REGIMES) + [names] * len(REGIMES) + h[1:]
 
 
 def run_ledger(c, pid, behs, nshards=6, validators=2, gomaxprocs=None, timeout=1800, tag="L", blocks_out=False, blocks_in=None):
